@@ -339,11 +339,14 @@ def run_config(code, n, variant, mask, evaluated, ctx):
 
 
 def plan(tier):
-    n = N[tier]
-    total = 2 ** (n * (n - 1) // 2)
     shards = []
-    step = 4 if n == 4 else 8
     for variant in VARIANTS:
+        n = N[tier]
+        if variant == 'gap':
+            # every evaluation walks a 125-cell range: one cell less
+            n -= 1
+        total = 2 ** (n * (n - 1) // 2)
+        step = 4 if n <= 4 else 8
         for lo in range(0, total, step):
             shards.append({'variant': variant, 'n': n, 'lo': lo,
                            'hi': min(total, lo + step)})
